@@ -7,12 +7,12 @@ PROP = "C03"
 
 def scenarios(rng, tier):
     out = []
-    n = 9 if tier == "quick" else 56
+    n = 10 if tier == "quick" else 60
     kinds = ["file-link", "file-copy", "dir-link", "dir-copy", "dir-recommit", "xdev-link", "checkout-link", "checkout-copy", "stage-add", "stage-remove",
-             "dir-recommit", "stage-symlink", "artifact-xdev", "two-stages"]
+             "dir-recommit", "stage-symlink", "artifact-xdev", "two-stages", "checkout-copy-tmp-sibling"]
     for i in range(n):
         kind = kinds[i % len(kinds)] if tier == "thorough" else ["dir-link", "dir-recommit", "xdev-link", "file-copy", "checkout-copy", "stage-add",
-                                                                   "stage-symlink", "artifact-xdev", "two-stages"][i % 9]
+                                                                   "stage-symlink", "artifact-xdev", "two-stages", "checkout-copy-tmp-sibling"][i % 10]
         init = []
         stages = []
         if kind == "artifact-xdev":
@@ -44,6 +44,17 @@ def scenarios(rng, tier):
             f = rng.choice(files)
             c["ops"] += [("write", f[1], "g:%d:%d" % (rng.randrange(1000, 2000), rng.choice([1, 400]))), ("write", b"tree/added.bin", "g:7:33")]
             c["cmd"] = ["commit"] + ([] if rng.random() < 0.5 else ["--copy"])
+        elif kind == "checkout-copy-tmp-sibling":
+            # the project tracks X and a sibling whose NAME is X + a suffix a temp-file scheme would pick; the sibling is in the
+            # workspace with uncommitted changes while X is checked out as a copy (the command may fail: the sibling is in the way of
+            # its own entry; what matters is what a kill at any point leaves behind)
+            f0 = files[0][1]
+            sfx = rng.choice([b".tmp", b".tmp", b".part", b".new", b"~"])
+            c["init"].append(("file", f0 + sfx, "g:%d:70" % rng.randrange(100)))
+            c["ops"] = [("commit", "l", []), ("clone", []), ("write", f0 + sfx, "g:%d:55" % rng.randrange(200, 300))]
+            c["cmd"] = ["checkout", "--copy"]
+            c["may_fail"] = True
+            c["no_trace"] = True
         elif kind.startswith("checkout"):
             c["ops"] = [("commit", rng.choice("lc"), []), ("clone", [])]
             c["cmd"] = ["checkout"] + (["--copy"] if kind.endswith("copy") else [])
